@@ -53,13 +53,13 @@ class Src(object):
 
 
 LENS = (1, 2, 9, 10, 11, 12, 99)       # 99 == drain to exhaustion
-QUERIES = ("list", "count", "getitem", "between")
+QUERIES = ("list", "count", "getitem", "getitem-neg", "slice", "contains", "between")
 
 
 def vocabulary(k, queries):
     ops = [("it", w, ln) for w in range(k) for ln in LENS]
     if queries:
-        ops += [("q", qn, 0) for qn in QUERIES]
+        ops += [("q", qn, 0) for qn in (QUERIES if queries is True else queries)]
     return ops
 
 
@@ -109,6 +109,14 @@ def h_iters(n, k, segs, queries):
                     elif w == "getitem":
                         if n:
                             ctx.check(rs[n // 2] == expected[n // 2], "rule[i] wrong", key="query-getitem", trace=trace)
+                    elif w == "getitem-neg":
+                        for idx in (-1, -n):
+                            if n:
+                                ctx.check(rs[idx] == expected[idx], "rule[-i] wrong", key="query-getitem-neg", trace=trace)
+                    elif w == "slice":
+                        ctx.check(rs[1:n:2] == expected[1:n:2] and rs[-3:] == expected[-3:], "rule[a:b:c] wrong", key="query-slice", trace=trace)
+                    elif w == "contains":
+                        ctx.check((n in rs) == (n in expected) and ((n + 1) in rs) == ((n + 1) in expected), "x in rule wrong", key="query-contains", trace=trace)
                     else:
                         ctx.check(rs.between(0, n + 1) == expected, "between() wrong", key="query-between", trace=trace)
             except Deadlock:
@@ -197,8 +205,9 @@ def cells(tier):
     for n in ((1, 11) if q else (0, 1, 9, 10, 11, 12, 19, 20, 21)):
         cs.append(Cell(M, "h_iters", dict(n=n, k=2, segs=3 if q else 4, queries=False), budget_s=200 if q else 3000,
                        per_path_s=20, max_violations=2000))
-        cs.append(Cell(M, "h_iters", dict(n=n, k=2, segs=3, queries=True), budget_s=200 if q else 1800,
-                       per_path_s=20, max_violations=2000))
+        for qs in (["list", "count", "getitem", "between"], ["getitem-neg", "slice", "contains"]):
+            cs.append(Cell(M, "h_iters", dict(n=n, k=2, segs=3, queries=qs), budget_s=240 if q else 1800,
+                           per_path_s=20, max_violations=2000))
     if not q:
         for n in (1, 11, 20):
             cs.append(Cell(M, "h_iters", dict(n=n, k=3, segs=3, queries=False), budget_s=2400, per_path_s=20,
